@@ -21,7 +21,7 @@ CHECKS = {
     'C08': dict(
         text='Every sequence function/operator template is executed symbolically through token.evaluate with sequence items, '
              'positions and lengths as z3 variables (items unbounded integers, sequences of length 0..3) and compared with the F&O '
-             'list model; obligations are discharged only when CrossHair exhausts all paths. This is bounded verification, not proof: '
+             'list model; the index arithmetic of fn:subsequence is translated from source to z3 and decided for all rational arguments and positions; obligations are discharged only when CrossHair exhausts all paths. This is bounded verification, not proof: '
              'nothing is claimed beyond the per-obligation bounds listed in the evidence.',
         note='Trusted: CrossHair 0.0.110 models of int/str/list/Decimal, z3, the match-desugaring import hook (validated against the '
              'test-suite). Out: node sequences (see C01), sequences longer than 3, inexact double arguments, sum/avg on doubles.',
@@ -88,6 +88,16 @@ CHECKS['C07'] = dict(
          'right. Out: inexact doubles, DoubleProxy10 tolerance, collations, date/time and binary operands.',
     technique='SMT-based symbolic execution (CrossHair/z3) of comparison/logic templates vs definitional oracle; types enumerated, values symbolic',
     design='DESIGN.md §4 C07')
+CHECKS['C09'] = dict(
+    text='substring/substring-before/after/contains/starts-with/ends-with/concat/compare/codepoint-equal/string-join/string-length/'
+         'codepoint conversions/normalize-space/translate/upper/lower-case are executed symbolically (CrossHair) through '
+         'token.evaluate on symbolic Unicode strings of length <= 3 (XPath 3.1 and 1.0 parsers) and compared with the F&O '
+         'definitions. The index arithmetic of fn:substring is translated from the current source to z3 (contract stubs for '
+         'quantize/slicing/get_argument) and decided for ALL rational start/length, all string lengths and all positions.',
+    note='Trusted: CrossHair str model, AST->z3 translator and its contract stubs (listed in the evidence). Out: URI escaping, '
+         'normalize-unicode, collations other than code point, libxml2 agreement, INF/NaN arguments beyond constant cases.',
+    technique='CrossHair/z3 symbolic execution on symbolic strings + AST->z3 translation of substring index arithmetic (unsat for all rationals)',
+    design='DESIGN.md §4 C09')
 NOT_APPLICABLE = {
     'C04': 'Quantifies over program syntax and hash seeds: no value domain to make symbolic; symbolic source text does not get through '
            'the tokenizer regex under CrossHair (600 CPU-s, len<=2, no verdict); a table-level z3 check would verify a model of the '
